@@ -172,6 +172,10 @@ func (c *conv) num(e ast.Expr) string {
 		}
 		break
 	}
+	if id, ok := e.(*ast.Ident); ok && id.Name == "Inf" {
+		// %#v of an infinite float: +Inf / -Inf (not a Go expression; outside the property)
+		return fmt.Sprintf("(inf %d)", b2i(neg))
+	}
 	l, ok := e.(*ast.BasicLit)
 	if !ok {
 		fail("number expected, found %T", e)
@@ -237,6 +241,9 @@ func (c *conv) lit(e ast.Expr) string {
 		b, ok := l.X.(*ast.BinaryExpr)
 		if !ok || (b.Op != token.ADD && b.Op != token.SUB) {
 			fail("complex literal")
+		}
+		if id, ok := b.Y.(*ast.Ident); ok && id.Name == "Infi" {
+			return "(cplx " + c.num(b.X) + fmt.Sprintf(" (inf %d))", b2i(b.Op == token.SUB))
 		}
 		im, ok := b.Y.(*ast.BasicLit)
 		if !ok || im.Kind != token.IMAG {
